@@ -230,6 +230,7 @@ class Capture:
         self.inputs_calls = []      # (request for the Lean model, what the real function returned)
         self.check_calls = []       # outermost `_check_for_non_extractables` calls: (request, {'refused': bool})
         self.check_depth = 0
+        self.needed_calls = []      # `_find_needed_output_variables` calls: (request, {'needed': [...], 'names': [...]})
 
     def __enter__(self):
         from jedi.api import refactoring
@@ -237,7 +238,7 @@ class Capture:
         import jedi.api as api
         self.mods = (refactoring, extract)
         self.orig = (refactoring.inline, extract._replace, extract._find_inputs_and_outputs,
-                     extract._check_for_non_extractables)
+                     extract._check_for_non_extractables, extract._find_needed_output_variables)
         cap = self
 
         def _check_for_non_extractables(nodes, in_loop=False):
@@ -276,8 +277,15 @@ class Capture:
                 if not sandbox_quirk(e):
                     raise
             return res
+        def _find_needed_output_variables(context, search_node, at_least_pos, return_variables):
+            # a generator in the source: consumed here, handed on as an iterator
+            candidates = list(return_variables)
+            res = list(cap.orig[4](context, search_node, at_least_pos, return_variables))
+            cap.needed_calls.append(needed_request(search_node, at_least_pos, candidates, res))
+            return iter(res)
         refactoring.inline = inline
         extract._replace = _replace
+        extract._find_needed_output_variables = _find_needed_output_variables
         extract._find_inputs_and_outputs = _find_inputs_and_outputs
         extract._check_for_non_extractables = _check_for_non_extractables
         from jedi.api.exceptions import RefactoringError
@@ -287,6 +295,7 @@ class Capture:
     def __exit__(self, *a):
         self.mods[0].inline, self.mods[1]._replace, self.mods[1]._find_inputs_and_outputs = self.orig[:3]
         self.mods[1]._check_for_non_extractables = self.orig[3]
+        self.mods[1]._find_needed_output_variables = self.orig[4]
 
 
 class RefactoringErrorBox:
@@ -319,6 +328,64 @@ def nonextractable_request(nodes):
                 out.append({'k': 'other', 'c': conv(n.children)})
         return out
     return {'op': 'nonextractable', 'nodes': conv(nodes)}
+
+
+FUNCTION_SCOPE_TYPES = ('funcdef', 'lambdef')
+
+
+def needed_request(search_node, at_least_pos, candidates, result):
+    """the children of `search_node` as the forests of the Lean model `ExtractOut` (name leaves with is_definition(),
+    runs of other leaves as one leaf, `.name` trailers, funcdef / lambdef split into children[:-1] and the body,
+    other nodes; node types: the python grammar, not read from jedi), each with `start_pos < at_least_pos`; the
+    implementation side: what the real generator yielded and what the real `_find_non_global_names` yields for
+    all children"""
+    from jedi.api.refactoring import extract
+
+    def conv(ns):
+        out = []
+        for n in ns:
+            ch = getattr(n, 'children', None)
+            if ch is None:
+                if n.type == 'name':
+                    out.append({'k': 'name', 'v': n.value, 'd': bool(n.is_definition())})
+                elif not out or out[-1]['k'] != 'leaf':
+                    out.append({'k': 'leaf'})
+            elif n.type == 'trailer' and ch[0] == '.':
+                out.append({'k': 'attr', 'c': conv(ch)})
+            elif n.type in FUNCTION_SCOPE_TYPES:
+                out.append({'k': 'scope', 'h': conv(ch[:-1]), 'b': conv(ch[-1:])})
+            else:
+                out.append({'k': 'node', 'c': conv(ch)})
+        return out
+    sibs = [{'before': bool(n.start_pos < at_least_pos), 'tree': conv([n])} for n in search_node.children]
+    names = [[n.value, bool(n.is_definition())] for n in extract._find_non_global_names(search_node.children)]
+    return ({'op': 'needed', 'sibs': sibs, 'rv': list(candidates)},
+            {'needed': list(result), 'names': names})
+
+
+def needed_bucket(req, ans):
+    """where the candidates are read behind the selection (histogram key; from the request alone)"""
+    rv = set(req['rv'])
+    direct, inner = set(), set()
+
+    def walk(forest, in_body):
+        for n in forest:
+            if n['k'] == 'name':
+                if not n['d'] and n['v'] in rv:
+                    (inner if in_body else direct).add(n['v'])
+            elif n['k'] == 'scope':
+                walk(n['h'], in_body)
+                walk(n['b'], True)
+            elif n['k'] == 'node':
+                walk(n['c'], in_body)
+    for sib in req['sibs']:
+        if not sib['before']:
+            walk(sib['tree'], False)
+    if inner - direct:
+        return 'read-only-from-a-nested-function-body'
+    if inner:
+        return 'read-directly-and-from-a-nested-function-body'
+    return 'read-directly' if direct else 'no-candidate-read-later' if rv else 'no-candidate'
 
 
 def inputs_request(module_context, context, nodes, result):
@@ -667,6 +734,9 @@ def stream_programs(ctx, reqs, pending):
             for req, impl in cap.check_calls:
                 reqs.append(req)
                 pending.append(('nonextractable', case, impl))
+            for req, impl in cap.needed_calls:
+                reqs.append(req)
+                pending.append(('needed', case, impl))
             if err is not None:
                 ctx.count('oracle-compile', key, nontrivial=False, bucket=kind + '/refused')
                 continue
@@ -785,6 +855,8 @@ def flow_judge(ctx, r, origin='generated program'):
         return
     ctx.count('oracle-compile', key, nontrivial=True, bucket=bucket,
               sample={'request': {'start': sel['start'], 'until': sel['until'], 'kinds': sel.get('kinds')}})
+    if r['status'] in ('no-compile', 'differs') and r.get('source') is not None:
+        FLOW_FAILED.add((r['source'], tuple(sel['start']), tuple(sel['until'])))
     if r['status'] == 'no-compile':
         case = flow_case(r['source'], r['entry'], sel, [], ['flow'] + list(sel.get('kinds', [])))
         fail(ctx, 'oracle-compile', 'extract_function returned a program that does not compile (%s)' % origin, case,
@@ -834,6 +906,9 @@ def flow_one(src, entry, sel, args, sink=None):
         for req, impl in cap.check_calls:
             sink[0].append(req)
             sink[1].append(('nonextractable', case, impl))
+        for req, impl in cap.needed_calls:
+            sink[0].append(req)
+            sink[1].append(('needed', case, impl))
     res.update({'rec': 'case', 'entry': entry, 'sel': sel, 'covered': len(covered), 'need': len(need),
                 'old_raises': sum(1 for (o, l_) in runs if o[0] != 'ok' or refactor_flow.exception_leaves(l_, sel)),
                 'nargs': len(args), 'source': src,
@@ -975,6 +1050,42 @@ def fixed_probes(ctx):
                  observed={'differences': diff, 'new_code': new})
 
 
+FLOW_FAILED = set()     # (source, start, until) of flow cases the oracle has already reported
+NEEDED_SEARCHED = []
+
+
+def needed_failing_input(ctx, case):
+    """failing-input search behind a disagreement on the handed-back names: the property itself (execute the old and
+    the new program) on that program and selection with further argument tuples; at most a few per run"""
+    if case.get('entry') is None or len(NEEDED_SEARCHED) >= 4:
+        return
+    k = (case['source'], (case['line'], case['column']), (case['until_line'], case['until_column']))
+    if k in FLOW_FAILED or k in NEEDED_SEARCHED:
+        return
+    NEEDED_SEARCHED.append(k)
+    import parso
+    fname = case['entry'].split('.')[-1].rstrip('()')
+    fn = [f for f in _all_funcdefs(parso.parse(case['source'])) if f.name.value == fname]
+    if not fn:
+        return
+    params = [p.name.value for p in fn[0].get_params() if p.name.value != 'self']
+    entry = {'params': [p for p in params if p != 't'], 'tuples': [p for p in params if p == 't']}
+    args = list(case.get('args') or [])
+    for a in refactor_gen.flow_arguments(ctx.subrng('needed-search'), entry, 24):
+        if a not in args:
+            args.append(a)
+    sel = {'start': [case['line'], case['column']], 'until': [case['until_line'], case['until_column']]}
+    flow_judge(ctx, flow_one(case['source'], case['entry'], sel, args),
+               origin='failing-input search behind correspondence:needed')
+
+
+def _all_funcdefs(node):
+    for c in getattr(node, 'children', []):
+        if c.type == 'funcdef':
+            yield c
+        yield from _all_funcdefs(c)
+
+
 def compare(ctx, reqs, pending, answers):
     for (kind, case, impl), req, ans in zip(pending, reqs, answers):
         key = json.dumps(req, sort_keys=True)
@@ -990,6 +1101,24 @@ def compare(ctx, reqs, pending, answers):
             ctx.count('inputs', key, nontrivial=any(o['outer'] for o in reads),
                       bucket='verdicts-of-one-name-differ' if mixed else 'aug-target' if
                       any(o['aug'] for o in req['occs']) else 'plain')
+        elif kind == 'needed':
+            model = ans if 'error' in ans else {'needed': ans['needed'], 'names': ans['names']}
+            b = needed_bucket(req, ans)
+            ctx.count('needed', key, nontrivial=b.startswith('read'), bucket=b)
+            if 'error' not in ans:
+                # the specification on this input: every candidate that is read behind the selection is handed back
+                # (and the expression of extract_function returns it)
+                later = set(ans['reads_later'])
+                lost = [v for v in req['rv'] if v in later and (v not in ans['needed'] or v not in ans['returned'])]
+                if lost:
+                    ctx.tie_broken('correspondence:needed-spec', short(
+                        {'lost': lost, 'needed': ans['needed'], 'returned': ans['returned'], 'case': case}, 2500))
+            if model != impl:
+                ctx.tie_broken('correspondence:needed', short(
+                    {'candidates': req['rv'], 'model_needed': model.get('needed'), 'impl_needed': impl['needed'],
+                     'names_agree': model.get('names') == impl['names'], 'case': case}, 2500))
+                needed_failing_input(ctx, case)
+            continue
         elif kind == 'nonextractable':
             model = ans if 'error' in ans else {'refused': ans['refused']}
             words = re.findall(r'"v": "(break|continue|return|yield)"|"k": "(loop|scope)"', key)
